@@ -21,11 +21,11 @@ var (
 		S - 1, S, S + 1, 1 << 27, 1<<27 + 1, 1 << 28, 1<<28 + 1, 1<<28 + 2, 1<<28 + 1365, 3 << 28, 15 << 28, 15<<28 + 1,
 		1 << 29, 1<<29 + 1, 1<<29 + 2, 1<<29 + 8, 1 << 30, 1<<30 + 1, 1 << 31, 1<<31 + 1,
 		0xAAAAAAB, 0xAAAAAAC, 1<<32 - 2, 1<<32 - 1}
-	fdSet     = []uint64{0, 1, 2, 3, 4, 5, 6, 7, 63, 64, 65, 1000, 0x7fffffff, 0x80000000, 0xfffffffe, 0xffffffff}
-	toSet     = []uint64{0, 1, 2, 3, 4, 5, 6, 7, 63, 64, 65, 1000, 0x80000000, 0xfffffffe, 0xffffffff}
-	toProbes  = []uint64{1 << 16, 1 << 20, 1 << 24, 0x7fffffff}
-	i64Set    = []uint64{0, 1, 2, 10, 11, 1<<31 - 1, 1 << 31, 1<<32 - 1, 1 << 32, 1 << 62, 1<<63 - 1, 1 << 63, 1<<63 + 1, 1<<64 - 2, 1<<64 - 1}
-	flagSet   = []uint64{0, 1, 2, 3, 4, 5, 6, 7, 8, 15, 16, 0xff, 0x100, 0xffff, 0x10000, 0x7fffffff, 0x80000000, 0xffffffff}
+	fdSet    = []uint64{0, 1, 2, 3, 4, 5, 6, 7, 63, 64, 65, 1000, 0x7fffffff, 0x80000000, 0xfffffffe, 0xffffffff}
+	toSet    = []uint64{0, 1, 2, 3, 4, 5, 6, 7, 63, 64, 65, 1000, 0x80000000, 0xfffffffe, 0xffffffff}
+	toProbes = []uint64{1 << 16, 1 << 20, 1 << 24, 0x7fffffff}
+	i64Set   = []uint64{0, 1, 2, 10, 11, 1<<31 - 1, 1 << 31, 1<<32 - 1, 1 << 32, 1 << 62, 1<<63 - 1, 1 << 63, 1<<63 + 1, 1<<64 - 2, 1<<64 - 1}
+	flagSet  = []uint64{0, 1, 2, 3, 4, 5, 6, 7, 8, 15, 16, 0xff, 0x100, 0xffff, 0x10000, 0x7fffffff, 0x80000000, 0xffffffff}
 	// reduced sets for the pairwise products of the quick tier
 	ptrSetQ = []uint64{0, 1024, 2048, 4096, S - 48, S - 8, S - 4, S - 1, S, 1 << 31, 1<<32 - 8, 1<<32 - 1}
 	lenSetQ = []uint64{0, 1, 2, 5, 8, 24, 48, 4096, S, S + 1, 1 << 27, 1 << 28, 1<<28 + 1, 1<<28 + 2, 15<<28 + 1,
@@ -93,6 +93,18 @@ func classify(defs map[string]api.FunctionDefinition) []fnSpec {
 		out = append(out, fs)
 	}
 	return out
+}
+
+// sockStateOK: this sandbox can bind and connect a loopback TCP port (probed by the parent).
+var sockStateOK bool
+
+func (f fnSpec) fdParams() (idx []int) {
+	for i, p := range f.params {
+		if p.kind == "fd" && p.name != "to" {
+			idx = append(idx, i)
+		}
+	}
+	return
 }
 
 func (f fnSpec) baseTuples() [][]uint64 {
@@ -190,6 +202,34 @@ func genCases(f fnSpec, thorough bool, r *rand.Rand) []Case {
 						}
 						add(a, st, img, e, "single")
 					}
+				}
+			}
+		}
+	}
+	// descriptor-table state "sock" (a pre-opened listener at 3, an accepted connection at 4): every function that
+	// takes a descriptor, around both socket descriptors, every parameter over its boundary set; poll_oneoff is left
+	// out (a read subscription on an idle socket without a clock subscription waits for ever, by design)
+	if sockStateOK && len(f.fdParams()) > 0 && (strings.HasPrefix(f.name, "sock_") || strings.HasPrefix(f.name, "fd_")) {
+		for _, fd := range []uint64{3, 4} {
+			b := make([]uint64, len(f.params))
+			for i, p := range f.params {
+				b[i] = p.base
+			}
+			for _, i := range f.fdParams() {
+				b[i] = fd
+			}
+			for _, e := range engines {
+				add(clone(b), "sock", "struct", e, "sock-base")
+			}
+			for i, p := range f.params {
+				set := p.set
+				if !thorough {
+					set = quickSet(p)
+				}
+				for k, v := range set {
+					a := clone(b)
+					a[i] = v
+					add(a, "sock", "struct", engines[k%2], "sock-single")
 				}
 			}
 		}
